@@ -14,12 +14,14 @@ CLAIMED = {
          "others on every area of every grid. PARTIAL: exact quadrature and eps = 0 are idealised (the eps borders are in the executable plan); which kernels/weights/convolution points "
          "enter is the Combiner's (C02, C07, C09). Entries of real runs are compared with an independent reference quadrature on every run.",
          "Trusted: Coq kernel+vm_compute, Coquelicot; harnesses; tools/lib/refconv.py + scipy in the patrol; eko's basis modelled by hand (third party).", "0.3 / 4 C01"),
- "C19": ("Coq theorems over an abstract field (field for blocks of 2..5 nodes, induction for the Kronecker property, lia for the block rule) on the hand-written model of the interpolation "
-         "basis, tied by differential correspondence on eko's objects and on the real conv.convolution at and next to grid nodes",
-         "Proof (algebraic core): on every area of every grid the d+1 block nodes reproduce every polynomial of degree <= d exactly (d = 1..4), partition of unity, every basis function "
-         "is continuous at every node with value delta_j,node. PARTIAL: the analytic convergence for smooth PDFs through the convolution integral is not proved; it is explored on real "
-         "runs (three grid levels + degree, node vs displaced x) with calibrated bounds — a test.",
-         "Trusted: Coq kernel+vm_compute; harnesses; eko's basis modelled by hand; patrol tolerances calibrated on the unchanged tree.", "0.3 / 4 C19"),
+ "C19": ("Coq theorems over an abstract field (field for blocks of 2..5 nodes, induction for the Kronecker property, lia for the block rule) and over the reals (Coquelicot: Taylor-Lagrange, "
+         "norm_RInt_le) on the hand-written model of the interpolation basis, tied by differential correspondence on eko's objects and on the real conv.convolution at and next to grid nodes",
+         "Proof: on every area of every grid the d+1 block nodes reproduce every polynomial of degree <= d exactly (d = 1..4), partition of unity, every basis function "
+         "is continuous at every node with value delta_j,node; for a function with d+1 derivatives (the last bounded by M) the interpolation error on any area of any grid is at most "
+         "(1+Lebesgue function) M h^(d+1)/(d+1)!, hence convergence under refinement; an interpolation error with sup norm E and Lipschitz constant Le changes the prediction by at most "
+         "(int|reg|/z + |loc|) E + int|sing|(1-z)/z^2 (Le x + E). PARTIAL: the bound on the Lebesgue function and the Lipschitz constant Le are hypotheses, not derived; QUADPACK's error is outside; "
+         "the run comparison (three grid levels + degree, FactScaleVar, node vs displaced x) uses calibrated bounds — a test.",
+         "Trusted: Coq kernel+vm_compute; std-lib real-number axioms + classic + funext (Coquelicot); harnesses; eko's basis modelled by hand; patrol tolerances calibrated on the unchanged tree.", "0.3 / 4 C19"),
  "C02": ("Coq theorems over an abstract field (field/ring) on a hand-written model of CouplingConstants/weight builders; "
          "model tied to the code by differential correspondence evaluated with vm_compute in exact rationals",
          "Proof: for every field of characteristic 0 (hence all real/rational sin^2, MZ, Q2, polarisation, propagator correction, CKM) "
